@@ -4,7 +4,7 @@
 
    Vocabulary.  Model/Printer.v: [pe e] = the pieces (tokens and spaces) Expr.String() writes,
    [pst]/[pprogram] the same for statements and programs, [render] their text, [toks] their tokens;
-   [quote] = strconv.Quote, [format_regex] = formatRegex, [fmt_num] = NumExpr.String();
+   [quote] = ast.formatString, [format_regex] = formatRegex, [fmt_num] = NumExpr.String();
    [scan1]/[scan_body]/[scan_regex]/[parse_string] = lexer.scan/scanRegex/parseString;
    [lex_as ts text] = the text lexes to ts under the parser's protocol (ScanRegex where ts has REGEX).
    Proofs/PrinterGroup.v: [gp e] = e with a grouping node wherever parenthesize() writes parentheses.
@@ -57,7 +57,7 @@ Print Assumptions C20_idempotent.
 
 (* ---------------- text level ---------------- *)
 
-(* strconv.Quote / lexer.parseString: every quote_safe string is read back as itself *)
+(* ast.formatString / lexer.parseString: every byte string (quote_safe = all elements are bytes) is read back as itself *)
 Theorem C20_string_roundtrip : forall s, quote_safe s = true ->
   forall rest sp, scan_body (quote s ++ rest) sp = STok (TString s) sp rest.
 Proof. exact string_roundtrip. Qed.
@@ -92,19 +92,21 @@ Proof.
 Qed.
 Print Assumptions C20_expr_roundtrip_partial.
 
-(* the only way a unary + or - breaks safety is a same-sign byte right behind it *)
-Theorem C20_unary_adjacency : forall op v an sp,
-  safe quote_safe an sp (pe (EUnary op v)) = true ->
+(* UnaryExpr.String() never lets a unary + or - touch a byte of the same sign, for EVERY tree:
+   the byte that follows the operator in the printed text is a space or the first byte of an operand
+   text that does not begin with that sign (formerly defect F-C20-1: `- -y` printed `--y`) *)
+Theorem C20_unary_adjacency : forall op v, exists rest,
+  pe (EUnary op v) = PT (un_tok op) :: rest /\
   match op with
-  | UMinus => ch (render (ppar (EUnary op v) v)) <> 45
-  | UPlus => ch (render (ppar (EUnary op v) v)) <> 43
+  | UMinus => ch (render rest) <> 45
+  | UPlus => ch (render rest) <> 43
   | UNot => True
   end.
 Proof.
-  intros op v an sp H. rewrite pe_unary in H. cbn [safe] in H.
-  apply andb_prop in H as [H _]. apply andb_prop in H as [H _]. apply andb_prop in H as [_ H].
-  destruct op; cbn [un_tok nofuse] in H; [exact I | |];
-    apply andb_prop in H as [H _]; apply negb_true_iff in H; apply Z.eqb_neq in H; exact H.
+  intros op v. rewrite pe_unary. eexists. split; [reflexivity|].
+  destruct op; [exact I | |]; cbn [sign_clash];
+    (destruct (ch1 (render (ppar _ v)) =? _) eqn:E; cbn [app];
+     [cbn; discriminate | apply Z.eqb_neq in E; exact E]).
 Qed.
 Print Assumptions C20_unary_adjacency.
 
@@ -145,33 +147,36 @@ Print Assumptions C20_indent_partial.
 
 (* ---------------- the unguarded statements are false on the faithful model ---------------- *)
 
-(* the printed text of every parser-built expression lexes back to the printer's tokens *)
-Definition C20_text_full_statement : Prop :=
-  forall e, fits false 0 e -> lex_as false (toks (pe e)) (render (pe e)) = true.
-
-Definition w_neg_neg : expr := EUnary UMinus (EUnary UMinus (EVar [121])).     (* - -y  prints  --y *)
-Theorem C20_adjacent_unary_refuted : ~ C20_text_full_statement.                (* F-C20-1 *)
-Proof. intros H. specialize (H w_neg_neg I). vm_compute in H. discriminate. Qed.
-Print Assumptions C20_adjacent_unary_refuted.
-
-Definition w_inf : expr := ENum (fmt_num (of_bits 9218868437227405312)).       (* 1e999 prints +Inf *)
-Theorem C20_infinite_literal_refuted : ~ C20_text_full_statement.              (* F-C20-4 *)
-Proof. intros H. specialize (H w_inf I). vm_compute in H. discriminate. Qed.
-Print Assumptions C20_infinite_literal_refuted.
-
-(* every byte string is read back from its quoted form *)
+(* every byte string is read back from its quoted form (formerly refuted by "\u200bab" and
+   "\U000e0001", defect F-C20-3; repaired: \u with all eight digits) *)
 Definition C20_string_full_statement : Prop :=
   forall s, forallb byte_ok s = true ->
   forall rest sp, scan_body (quote s ++ rest) sp = STok (TString s) sp rest.
+Theorem C20_string_roundtrip_all : C20_string_full_statement.
+Proof. exact string_roundtrip. Qed.
+Print Assumptions C20_string_roundtrip_all.
 
-Definition w_zwsp_ab : bytes := [226; 128; 139; 97; 98].        (* U+200B a b : printed with the escape backslash-u200bab, read as ONE escape, U+200BAB *)
-Definition w_tag : bytes := [243; 160; 128; 129].               (* U+E0001 : printed backslash-U000e0001, read as the text U000e0001 *)
-Theorem C20_string_escape_refuted : ~ C20_string_full_statement.               (* F-C20-3 *)
-Proof. intros H. specialize (H w_zwsp_ab eq_refl [] false). vm_compute in H. discriminate. Qed.
-Print Assumptions C20_string_escape_refuted.
-Example C20_ex_big_u_misread :
-  scan_body (quote w_tag) false = STok (TString [85; 48; 48; 48; 101; 48; 48; 48; 49]) false [].
-Proof. vm_compute. reflexivity. Qed.
+Definition w_neg_neg : expr := EUnary UMinus (EUnary UMinus (EVar [121])).     (* - -y  now prints  - -y *)
+Definition w_plus_incr : expr := EUnary UPlus (EIncr IIncr true (EVar [121])).  (* + ++y *)
+Example C20_ex_unary_text :
+  render (pe w_neg_neg) = [45; 32; 45; 121] /\ lex_as false (toks (pe w_neg_neg)) (render (pe w_neg_neg)) = true /\
+  render (pe w_plus_incr) = [43; 32; 43; 43; 121] /\ lex_as false (toks (pe w_plus_incr)) (render (pe w_plus_incr)) = true.
+Proof. repeat split; vm_compute; reflexivity. Qed.
+
+(* an infinite literal prints 1e999, which the NUMBER scanner reads back whole (formerly +Inf, F-C20-4) *)
+Example C20_ex_infinite_literal :
+  fmt_num (of_bits 9218868437227405312) = [49; 101; 57; 57; 57] /\
+  num_ok (fmt_num (of_bits 9218868437227405312)) = true /\
+  lex_as false (toks (pe (ENum (fmt_num (of_bits 9218868437227405312))))) (render (pe (ENum (fmt_num (of_bits 9218868437227405312))))) = true.
+Proof. repeat split; vm_compute; reflexivity. Qed.
+
+Definition w_zwsp_ab : bytes := [226; 128; 139; 97; 98].        (* U+200B a b : now printed with the escape backslash-u0000200b *)
+Definition w_tag : bytes := [243; 160; 128; 129].               (* U+E0001 : now backslash-u000e0001 *)
+Example C20_ex_nonprintable_runes :
+  quote w_zwsp_ab = [34; 92; 117; 48; 48; 48; 48; 50; 48; 48; 98; 97; 98; 34] /\
+  scan_body (quote w_zwsp_ab) false = STok (TString w_zwsp_ab) false [] /\
+  scan_body (quote w_tag) false = STok (TString w_tag) false [].
+Proof. repeat split; vm_compute; reflexivity. Qed.
 
 Definition C20_print_stmt_full_statement : Prop := print_stmt_full_statement.
 Theorem C20_print_stmt_refuted : ~ C20_print_stmt_full_statement.              (* F-C20-2: print (1, 2 > 1) *)
@@ -221,7 +226,7 @@ Proof. cbn. intros (_ & (_ & H & _) & _). apply H; reflexivity. Qed.
 (* strings and regexes *)
 Example C20_ex_quote_safe : quote_safe [97; 34; 92; 10; 1; 255; 195; 169; 226; 128; 139; 122] = true.   (* a, double quote, backslash, LF, ^A, 0xff, e-acute, U+200B, z *)
 Proof. vm_compute. reflexivity. Qed.
-Example C20_ex_quote_unsafe : quote_safe w_zwsp_ab = false /\ quote_safe w_tag = false.
+Example C20_ex_quote_safe_all : quote_safe w_zwsp_ab = true /\ quote_safe w_tag = true.
 Proof. split; vm_compute; reflexivity. Qed.
 Example C20_ex_regex_ok : regex_ok [97; 47; 92; 92; 47; 92; 46] = true.       (* a / \\ / \. *)
 Proof. vm_compute. reflexivity. Qed.
